@@ -127,6 +127,24 @@ fn sched_from(bytes: &[u8]) -> Vec<Step> {
         .collect()
 }
 
+/// Recompute the checksum of every 512-byte block that still looks like a ustar header.
+pub fn tar_fix_checksums(d: &mut [u8]) {
+    let mut off = 0;
+    while off + 512 <= d.len() {
+        if &d[off + 257..off + 262] == b"ustar" {
+            let sum: u32 = d[off..off + 512].iter().enumerate().map(|(i, b)| if (148..156).contains(&i) { 32 } else { *b as u32 }).sum();
+            let txt = format!("{:06o}\0 ", sum);
+            d[off + 148..off + 156].copy_from_slice(txt.as_bytes());
+        }
+        off += 512;
+    }
+}
+
+/// Offsets of the blocks that look like ustar headers.
+pub fn tar_headers(d: &[u8]) -> Vec<usize> {
+    (0..d.len() / 512).map(|i| i * 512).filter(|off| &d[off + 257..off + 262] == b"ustar").collect()
+}
+
 /// Run one target on one input. Returns every finding (empty = held).
 pub fn run_target(target: &str, data: &[u8]) -> Vec<Finding> {
     // with logging enabled down to `trace`, the arguments of every log statement in the
@@ -183,6 +201,12 @@ pub fn run_target(target: &str, data: &[u8]) -> Vec<Finding> {
             }
         }
         "sigmf_archive" => {
+            // the input as it is, and with the checksums of its tar headers recomputed (so
+            // that mutated header fields reach the code behind the checksum test)
+            let mut repaired = data.to_vec();
+            tar_fix_checksums(&mut repaired);
+            let variants: Vec<&[u8]> = if repaired == data { vec![data] } else { vec![data, &repaired] };
+            for data in variants {
             let sc = Scratch::new();
             let path = sc.path("fuzz.sigmf");
             if std::fs::write(&path, data).is_ok() {
@@ -213,6 +237,7 @@ pub fn run_target(target: &str, data: &[u8]) -> Vec<Finding> {
                         }
                     }
                 }
+            }
             }
         }
         "stream_to_pdu" => {
